@@ -340,8 +340,8 @@ package gateway
 //@   property C08 C11
 //@   nopanic
 //@   requires[records] forall i in 0..len(candidates): candidates[i] != nil
-//@   modifies *
-//@   loop 0 invariant[keys_so_far] out != nil && forall j in 0..rangeindex+1: has(out, icall("GetKey", candidates[j]))
+//@   loop 0 invariant[caller_memory_kept] entrymem()
+//@   loop 0 invariant[keys_so_far] out != nil && fresh(out) && forall j in 0..rangeindex+1: has(out, icall("GetKey", candidates[j]))
 //@   ensures[every_candidate_key_is_in_the_set] forall j in 0..len(candidates): has(out, icall("GetKey", candidates[j]))
 //@   ensures[no_candidates_no_set] len(candidates) == 0 ==> out == nil
 
